@@ -1,70 +1,55 @@
-(* C20 — refutation witnesses (`…_trap_refuted`: the full "never traps" statement is false of the
-   faithful model; each witness is replayed on the real code by the harness) and satisfiability
-   examples for the hypotheses of the theorems. *)
+(* C20 — examples.  The inputs that were `…_trap_refuted` witnesses before the wrapping repair of the
+   hinting kernels are kept as examples of the now total behaviour (each is replayed on the real code
+   by the harness); the remaining `…_trap_refuted` are preconditions no caller violates. *)
 From Coq Require Import ZArith List Lia.
 From FV Require Import Lib.RustInt C15.Model C15.Proofs C20.Model C20.Proofs.
 Import ListNotations.
 Open Scope Z_scope.
 
-(* ---- hint/math.rs ---- *)
-Example round_trap_refuted : exists x, i32 x /\ m_round x = None.
-Proof. exists 2147483647. split; [unfold i32; lia|vm_compute; reflexivity]. Qed.
-Example round_trap_refuted_least : m_round 2147483616 = None /\ m_round 2147483615 = Some 2147483584.
-Proof. split; vm_compute; reflexivity. Qed.
-Example ceil_trap_refuted : exists x, i32 x /\ m_ceil x = None.
-Proof. exists 2147483585. split; [unfold i32; lia|vm_compute; reflexivity]. Qed.
-Example round_pad_trap_refuted : exists x n, i32 x /\ i32 n /\ m_round_pad x n = None.
-Proof. exists 2147483632, 32. repeat split; try (unfold i32; lia). Qed.
-Example floor_pad_trap_refuted : exists x n, i32 n /\ m_floor_pad x n = None.
-Proof. exists 0, (-2147483648). split; [unfold i32; lia|vm_compute; reflexivity]. Qed.
-(* DIV[] executes mul_div_no_round(a, 64, b) *)
-Example mul_div_no_round_trap_refuted : exists a b c, i32 a /\ i32 b /\ i32 c /\ m_mul_div_no_round a b c = None.
-Proof. exists (-2147483648), 64, 1. repeat split; try (unfold i32; lia). Qed.
-Example mul_div_no_round_trap_refuted_divisor : m_mul_div_no_round 1 64 (-2147483648) = None.
+(* ---- hint/math.rs: the inputs that trapped before the wrapping repair, now total ---- *)
+Example round_at_former_trap : m_round 2147483647 = Some (-2147483648) /\ m_round 2147483616 = Some (-2147483648)
+  /\ m_round 2147483615 = Some 2147483584.
+Proof. repeat split; vm_compute; reflexivity. Qed.
+Example ceil_at_former_trap : m_ceil 2147483585 = Some (-2147483648).
 Proof. vm_compute; reflexivity. Qed.
-(* no operand is i32::MIN but the quotient is 2^31 and the sign negative: -(d as i32) *)
-Example mul_div_no_round_trap_refuted_quotient : m_mul_div_no_round (-33554432) 64 1 = None.
+Example round_pad_at_former_trap : m_round_pad 2147483632 32 = Some (-2147483648).
 Proof. vm_compute; reflexivity. Qed.
+Example floor_pad_at_former_trap : m_floor_pad 0 (-2147483648) = Some 0.
+Proof. vm_compute; reflexivity. Qed.
+(* DIV[] executes mul_div_no_round(a, 64, b): same results as the (wrapping) release build always gave *)
+Example mul_div_no_round_at_former_traps :
+  m_mul_div_no_round (-2147483648) 64 1 = Some 0 /\ m_mul_div_no_round 1 64 (-2147483648) = Some (-2147483647)
+  /\ m_mul_div_no_round (-33554432) 64 1 = Some (-2147483648).
+Proof. repeat split; vm_compute; reflexivity. Qed.
 Example mul_div_no_round_ok : m_mul_div_no_round (-6127) 15026 2276 = Some (-40450).
 Proof. vm_compute; reflexivity. Qed.
 
 (* ---- hint/round.rs ---- *)
-Example round_grid_trap_refuted : exists d, i32 d /\ rs_grid d = None.
-Proof. exists 2147483647. split; [unfold i32; lia|vm_compute; reflexivity]. Qed.
-Example round_grid_trap_refuted_min : rs_grid (-2147483648) = None.
-Proof. vm_compute; reflexivity. Qed.
-Example round_half_grid_trap_refuted : rs_half_grid (-2147483648) = None.
-Proof. vm_compute; reflexivity. Qed.
-Example round_double_grid_trap_refuted : rs_double_grid 2147483647 = None /\ rs_double_grid (-2147483648) = None.
-Proof. split; vm_compute; reflexivity. Qed.
-Example round_down_to_grid_trap_refuted : rs_down_to_grid (-2147483648) = None.
-Proof. vm_compute; reflexivity. Qed.
-Example round_up_to_grid_trap_refuted : rs_up_to_grid 2147483647 = None /\ rs_up_to_grid (-2147483648) = None.
-Proof. split; vm_compute; reflexivity. Qed.
-(* SROUND 0x44 (period 64, phase 0, threshold 0): ROUND of i32::MIN traps; SROUND 0x4F: i32::MAX traps *)
-Example round_super_trap_refuted :
-  exists sel d t ph pe, i32 d /\ super_round 16384 sel = Some (t, ph, pe) /\ rs_super t ph pe d = None.
-Proof. exists 79, 2147483647, 88, 0, 64. repeat split; try (unfold i32; lia). Qed.
-Example round_super_trap_refuted_min :
-  exists t ph pe, super_round 16384 68 = Some (t, ph, pe) /\ rs_super t ph pe (-2147483648) = None.
-Proof. exists 0, 0, 64. split; vm_compute; reflexivity. Qed.
-Example round_super45_trap_refuted :
-  exists sel d t ph pe, i32 d /\ super_round 11585 sel = Some (t, ph, pe) /\ rs_super45 t ph pe d = None.
-Proof. exists 79, 2147483647, 62, 0, 45. repeat split; try (unfold i32; lia). Qed.
-(* arbitrary (threshold, phase, period) — not installable by the interpreter — trap much earlier *)
-Example round_super_any_params_trap_refuted : rs_super 0 0 (-2147483648) 0 = None /\ rs_super45 0 0 0 5 = None.
+Example round_modes_at_former_traps :
+  rs_grid 2147483647 = Some 0 /\ rs_grid (-2147483648) = Some (-2147483648)
+  /\ rs_half_grid (-2147483648) = Some 0
+  /\ rs_double_grid 2147483647 = Some 0 /\ rs_double_grid (-2147483648) = Some (-2147483648)
+  /\ rs_down_to_grid (-2147483648) = Some (-2147483648)
+  /\ rs_up_to_grid 2147483647 = Some 0 /\ rs_up_to_grid (-2147483648) = Some (-2147483648).
+Proof. repeat split; vm_compute; reflexivity. Qed.
+Example round_super_at_former_traps :
+  super_round 16384 79 = Some (88, 0, 64) /\ rs_super 88 0 64 2147483647 = Some 0
+  /\ super_round 16384 68 = Some (0, 0, 64) /\ rs_super 0 0 64 (-2147483648) = Some (-2147483648)
+  /\ super_round 11585 79 = Some (62, 0, 45) /\ rs_super45 62 0 45 2147483647 = Some 0
+  /\ rs_super 0 0 (-2147483648) 0 = Some 0.
+Proof. repeat split; vm_compute; reflexivity. Qed.
+(* what is left: a period of 0 or -1 (RoundState's fields are public; SROUND/S45ROUND never install them) *)
+Example round_super45_trap_refuted : rs_super45 0 0 0 5 = None /\ rs_super45 0 0 (-1) (-2147483648) = None.
 Proof. split; vm_compute; reflexivity. Qed.
 Example sround_then_round_ok :
   exists t ph pe, super_round 16384 72 = Some (t, ph, pe) /\ rs_round 6 t ph pe 100 = Some 128.
 Proof. exists 32, 0, 64. split; vm_compute; reflexivity. Qed.
 
 (* ---- font-types ---- *)
-Example fixed_neg_trap_refuted : exists a, i32 a /\ fx_neg 32 a = None.
-Proof. exists (-2147483648). split; [unfold i32; lia|vm_compute; reflexivity]. Qed.
-Example fixed_abs_trap_refuted : exists a, i32 a /\ fx_abs 32 a = None.
-Proof. exists (-2147483648). split; [unfold i32; lia|vm_compute; reflexivity]. Qed.
-Example f2dot14_abs_trap_refuted : exists a, i16 a /\ fx_abs 16 a = None.
-Proof. exists (-32768). split; [unfold i16; lia|vm_compute; reflexivity]. Qed.
+Example fixed_neg_abs_at_former_traps :
+  fx_neg 32 (-2147483648) = Some (-2147483648) /\ fx_abs 32 (-2147483648) = Some (-2147483648)
+  /\ fx_abs 16 (-32768) = Some (-32768).
+Proof. repeat split; vm_compute; reflexivity. Qed.
 
 (* ---- read-fonts ---- *)
 Example cmap4_lookup_trap_refuted :     (* codepoint < start_code: never passed by map_codepoint / Cmap4Iter *)
